@@ -59,6 +59,9 @@ def make_cases(ctx, rng):
     # ... and through the sub-block splitter of ZSTD_c_targetCBlockSize (literal counts of sub-blocks)
     for lvl, sz, tcb in ((3, 131072, 1340), (1, 200000, 4000), (7, 131072, 2000), (19, 131072, 1340)):
         add("longlen", sz, "compress2", {"level": lvl, "targetCBlockSize": tcb, "minMatch": 7 if lvl == 1 else 4})
+    # sub-blocks: the first sub-block of a block has no literals, later ones use the block's Huffman table
+    for lvl, tcb in ((5, 1340), (7, 2000), (9, 1340), (12, 4000), (3, 1340)):
+        add("matchlead", 2 * 131072 + 3000, "compress2", {"level": lvl, "targetCBlockSize": tcb})
     # blocks that are a run of one byte except for a deviation inside their last 32 bytes (RLE-block detection)
     for k, lvl in ((40, 1), (1000, 3), (65536, 5), (131072, 19), (131072 + 17, 1), (3, 13)):
         add("nearrle", 131072 + k, "compress2", {"level": lvl})
